@@ -33,7 +33,8 @@ LEVEL_TEXT = ("Exploration: thousands of round trips over generated trees (all s
               "per tree object. Held = held on those executions."
               " A second tree of the same text length is written to the same path right after a read and read again."
               " Generated trees come in several representations of the same values (strided, other dtypes / lists, one array as two columns, read-only where the harness never writes) and half of them were queried, a third put through aborted operations, before use. A rejected read (extra columns the text lacks) precedes some round trips."
-              " Trees that were read back are saved again; node counts on / next to powers of two and block sizes (255 .. 8193) and one big branched tree.")
+              " Trees that were read back are saved again; node counts on / next to powers of two and block sizes (255 .. 8193) and one big branched tree."
+              " Paths spelled as str / Path / bytes / relative.")
 LEVEL_NOTE = ("Trusts decimal.Decimal for the rounding reference and Python's float parser; comments "
               "are single-line and never start with the column banner (the reader documents "
               "dropping that line).")
